@@ -68,6 +68,15 @@ Proof.
   apply negb_false_iff. apply existsb_exists. exists y. split; [exact Hy|]. rewrite L, Nd. reflexivity.
 Qed.
 
+(* a member of the assembly whose process is gone (registered, not deployed: the RPC fails) means keep *)
+Theorem undeployed_neighbour_keeps w x o lo hi y :
+  o_fromdoc o = true -> x_own x = OwnRange lo hi -> x_nb x = NbOp ->
+  In y (g_dbs w) -> x_nb y = NbOp -> x_state y = Crashed -> cleanup_deletes w x o = false.
+Proof.
+  intros F O N Hy Ny Cy. unfold cleanup_deletes. rewrite F, O, N. cbn [negb].
+  apply negb_false_iff. apply existsb_exists. exists y. split; [exact Hy|]. rewrite Ny, Cy. apply orb_true_r.
+Qed.
+
 (* NeedsTable answers for every checkpoint of the list, whether loaded from a document or taken by the database itself *)
 Theorem needs_table_own_checkpoint x c t :
   In c (x_ckpts x) -> In t (c_tabs c) -> needs_table x (t_name t) = true.
@@ -116,10 +125,11 @@ Proof.
 Qed.
 
 Theorem retain_saved_removes_dropped_wals w d ids f x c :
-  get_db w d = Some x -> retain_ok w d ids f = true -> In c (x_ckpts x) -> retain_keeps ids c = false ->
+  get_db w d = Some x -> retain_empty w d ids = false -> retain_ok w d ids f = true -> In c (x_ckpts x) -> retain_keeps ids c = false ->
   fs_has (g_fs (step_retain w d ids f)) (c_wal c) = false.
 Proof.
-  intros G OK Hc NK. unfold step_retain, retain_ok in *. rewrite G in *.
+  intros G NE OK Hc NK. unfold step_retain, retain_ok, retain_empty in *. rewrite G in *.
+  destruct (filter (retain_keeps ids) (x_ckpts x)) as [|k0 ks] eqn:FK; [discriminate|]. rewrite <- FK in *.
   set (x1 := with_ck x (filter (retain_keeps ids) (x_ckpts x)) (x_pending x ++ filter (fun c => negb (retain_keeps ids c)) (x_ckpts x)) (x_cktasks x)) in *.
   pose proof (save_ok_removes_pending_wals w x1 f c OK) as D.
   destruct (save_list_f w x1 f) as [[w1 x2] ok]. cbn [fst snd] in *. unfold set_db. cbn [g_fs]. apply D.
@@ -131,9 +141,17 @@ Theorem retain_failed_keeps_wals w d ids f x n :
   fs_has (g_fs (step_retain w d ids f)) n = fs_has (g_fs w) n.
 Proof.
   intros G OK NE. unfold step_retain, retain_ok in *. rewrite G in *.
+  destruct (filter (retain_keeps ids) (x_ckpts x)) as [|k0 ks] eqn:FK; [reflexivity|]. rewrite <- FK in *.
   set (x1 := with_ck x (filter (retain_keeps ids) (x_ckpts x)) (x_pending x ++ filter (fun c => negb (retain_keeps ids c)) (x_ckpts x)) (x_cktasks x)) in *.
   pose proof (failed_save_deletes_nothing w x1 f n OK) as D.
   destruct (save_list_f w x1 f) as [[w1 x2] ok]. cbn [fst snd] in *. unfold set_db. cbn [g_fs]. apply D. exact NE.
+Qed.
+
+(* a retention update that names no checkpoint of the database is refused and changes nothing (repair D38) *)
+Theorem refused_retention_changes_nothing w d ids f : retain_empty w d ids = true -> step_retain w d ids f = w.
+Proof.
+  unfold retain_empty, step_retain. destruct (get_db w d) as [x|]; [|discriminate].
+  destruct (filter (retain_keeps ids) (x_ckpts x)); [reflexivity|discriminate].
 Qed.
 
 (* ---------- finding D11: the full statement is false on the faithful model ---------- *)
